@@ -60,7 +60,7 @@ def _worker(args):
         faulthandler.cancel_dump_traceback_later()
 
 
-EARLY_STOP = 12  # runs with a new (not known-finding) violation after which the rest of the batch is skipped
+EARLY_STOP = int(os.environ.get("GBSIM_EARLY_STOP", "12"))  # runs with a new (not known-finding) violation after which the rest of the batch is skipped
 
 
 def _has_new_violation(pid, res, known):
@@ -139,6 +139,8 @@ def match_known(pid, v, known):
         if e["property"] != pid:
             continue
         if e.get("invariant") and e["invariant"] != v.get("invariant"):
+            continue
+        if e.get("invariants") and v.get("invariant") not in e["invariants"]:
             continue
         if not all(r in feats for r in e.get("requires", [])):
             continue
@@ -265,6 +267,11 @@ def run_check(pid, tier, base_seed, out=sys.stdout):
             new_viols.append((r, v))
     for fid, (e, n) in sorted(known_hits.items()):
         print(f"KNOWN-FINDING: property={pid} {e['id']}: {e['what']} (hit {n}x in this run)", file=out)
+    inv_count = {}
+    for r, v in new_viols:
+        inv_count[v["invariant"]] = inv_count.get(v["invariant"], 0) + 1
+    if inv_count:
+        print("[gbsim] new violations by invariant: " + ", ".join(f"{k} x{n}" for k, n in sorted(inv_count.items())), file=out)
     # report at most a few distinct new violations (by invariant), each minimised and replay-verified
     seen_inv = set()
     for r, v in new_viols:
